@@ -493,6 +493,10 @@ func (st *c42State) gen(cs *c42Sess) c42Stmt {
 			{q: "REPLACE INTO rod.r VALUES (1, 9)", class: "RW", kind: "rod-replace"},
 			{q: "TRUNCATE TABLE rod.r", class: "RW", kind: "rod-truncate"},
 			{q: "INSERT INTO rod.r2 SELECT id FROM t", class: "RW", kind: "rod-insert-select"},
+			{q: "UPDATE t JOIN rod.r r ON t.id = r.id SET r.v = t.v + 1", class: "RW", kind: "rod-update-join-second"},
+			{q: "UPDATE rod.r r JOIN t ON t.id = r.id SET r.v = t.v + 1", class: "RW", kind: "rod-update-join-first"},
+			{q: "DELETE r FROM t JOIN rod.r r ON t.id = r.id", class: "RW", kind: "rod-delete-join"},
+			{q: "INSERT INTO rod.r (id, v) VALUES (1, 5) ON DUPLICATE KEY UPDATE v = v + 1", class: "RW", kind: "rod-insert-odku"},
 			{q: "CREATE TABLE rod." + st.obj("x") + " (a INT PRIMARY KEY)", class: "RD", kind: "rod-create-table"},
 			{q: "CREATE TABLE rod." + st.obj("x") + " AS SELECT * FROM t", class: "RD", kind: "rod-create-table-as"},
 			{q: "DROP TABLE rod.r2", class: "RD", kind: "rod-drop-table"},
